@@ -46,6 +46,10 @@ class ScopeMetrics:
             else f"[{self.trace_id}] [{self.identifier}]"
         )
         self._logger: Logger = logger or getLogger(name=scope)
+        # completed scope can't wait for nested scopes anymore - use its nearest not completed ancestor
+        while parent is not None and parent._completed.done():
+            parent = parent._parent
+
         self._parent: Self | None = parent if parent else None
         self._metrics: dict[type[State], State] = {}
         self._nested: list[ScopeMetrics] = []
